@@ -809,6 +809,8 @@ class Explorer:
         def call(cn, frame):
             f = cn.func
             src = ast.unparse(f)
+            if src in self.c.calls:
+                return      # replaced by the sidecar's call mapping: its effects are whatever that stub does explicitly
             if isinstance(f, ast.Attribute) and f.attr in MUTATORS:
                 mutated(f.value, frame)
             target = None
@@ -1123,6 +1125,9 @@ def _source_order(fnode):
 
 def _memo_equal(run, w, v):
     """Python equality of two call arguments as functools.lru_cache sees it"""
+    h = run.x.reg.stubs.get(("pyeq", v.ty.name))
+    if h is not None:
+        return h(run, w, v)          # a sidecar record that stands for a Python value with its own == (e.g. str vs SafeString inside)
     if v.ty is TAny:
         P = TAny.sort()
         strlike = lambda t: z3.Or(P.is_StrV(t), P.is_SafeV(t))
